@@ -428,7 +428,7 @@ fn run(ctx: &mut Ctx) {
         }
         // PWB: the same packet re-chunked so that the final chunk is longer than the others (legal)
         {
-            let dec0 = alpha_g_detector::padwing::Chunk::try_from(&base[nw].1[..]).unwrap();
+            let dec0 = super::must_chunk(&base[nw].1);
             let payload = dec0.payload().to_vec();
             for reg in [100usize, 500, 1000, payload.len() / 3] {
                 if reg == 0 || payload.len() < 2 * reg + 1 {
@@ -450,7 +450,7 @@ fn run(ctx: &mut Ctx) {
         }
         // PWB: one payload byte changed, chunk CRCs valid
         let pi = nw;
-        let dec = alpha_g_detector::padwing::Chunk::try_from(&base[pi].1[..]).unwrap();
+        let dec = super::must_chunk(&base[pi].1);
         let plen = dec.payload().len();
         let positions: Vec<usize> = (0..56.min(plen)).chain((0..20).map(|_| rng.usize(plen))).chain(plen.saturating_sub(8)..plen).collect();
         for pos in positions {
